@@ -261,7 +261,7 @@ def replay(params, model, wd, which="C01"):
             return {"reproduced": True, "key": "%s:%s:unspellable" % (which, fmt), "what": "output record cannot be spelled: %r (%s)" % (out[0], e)}
         problems = []
         if got != want:
-            problems.append(("locus", "spells %r, input spells %r" % (got[:40], want[:40])))
+            problems.append(("locus", "designates bases %r..., the input record designates %r..." % (got[:3], want[:3])))
         pl = int(f[6])
         import re
 
